@@ -36,6 +36,32 @@ struct Cfg {
     limit: usize,
     padded: bool,
     seed: u64,
+    /// what the item iterator reports as its size hint: 0 exact, 1 `(0, None)`, 2 an inexact non-zero
+    /// lower bound `(1, Some(n + 2))`
+    hint: u8,
+}
+
+const HINT_NAMES: [&str; 3] = ["exact", "(0, None)", "(1, Some(n + 2))"];
+
+/// the items with a chosen (legal) size hint
+struct Hinted {
+    items: std::vec::IntoIter<It>,
+    hint: u8,
+}
+
+impl Iterator for Hinted {
+    type Item = It;
+    fn next(&mut self) -> Option<It> {
+        self.items.next()
+    }
+    fn size_hint(&self) -> (usize, Option<usize>) {
+        let left = self.items.len();
+        match self.hint {
+            1 => (0, None),
+            2 => (left.min(1), Some(left + 2)),
+            _ => (left, Some(left)),
+        }
+    }
 }
 
 type Output = Vec<Vec<It>>;
@@ -55,6 +81,7 @@ fn case_json(sizes: &[usize], c: &Cfg) -> Value {
     json!({
         "sizes": sizes, "sort": c.sort, "shuffle": c.shuffle, "prefetch_factor": c.prefetch, "limit": c.limit,
         "limit_type": if c.padded { "padded_item_size" } else { "batch_size" }, "seed": c.seed,
+        "item_iterator_size_hint": HINT_NAMES[c.hint as usize],
     })
 }
 
@@ -67,6 +94,11 @@ fn case_from_json(v: &Value) -> (Vec<usize>, Cfg) {
         limit: v["limit"].as_u64().unwrap() as usize,
         padded: v["limit_type"].as_str().unwrap() == "padded_item_size",
         seed: v["seed"].as_u64().unwrap(),
+        hint: match v["item_iterator_size_hint"].as_str() {
+            Some("(0, None)") => 1,
+            Some("(1, Some(n + 2))") => 2,
+            _ => 0,
+        },
     };
     (sizes, c)
 }
@@ -113,7 +145,7 @@ fn drive(sizes: &[usize], c: &Cfg) -> Result<(Output, bool, u64), String> {
     catch(|| {
         let items: Vec<It> = sizes.iter().enumerate().map(|(id, size)| It { id, size: *size }).collect();
         let ty = if c.padded { BatchLimitType::PaddedItemSize } else { BatchLimitType::BatchSize };
-        let mut b = items.into_iter().batched(c.sort, c.shuffle, c.prefetch, c.limit, ty, Some(c.seed));
+        let mut b = Hinted { items: items.into_iter(), hint: c.hint }.batched(c.sort, c.shuffle, c.prefetch, c.limit, ty, Some(c.seed));
         let mut out: Output = Vec::with_capacity(sizes.len());
         let mut ended = false;
         let mut calls = 1u64;
@@ -237,7 +269,7 @@ fn main() {
     if let Some(u) = run.describe_unit() {
         println!(
             "{}",
-            json!({"sizes": all.get(u as usize), "configurations": format!("sort x shuffle x prefetch_factor {PREFETCH:?} x limit {LIMITS:?} x {{batch_size, padded_item_size}} x seeds 0..{nseeds} when shuffling (seed 0 otherwise)")})
+            json!({"sizes": all.get(u as usize % all.len()), "item_iterator_size_hint": if (u as usize) < all.len() { "exact" } else { "(0, None) and (1, Some(n + 2)), reduced grid" }, "configurations": format!("sort x shuffle x prefetch_factor {PREFETCH:?} x limit {LIMITS:?} x {{batch_size, padded_item_size}} x seeds 0..{nseeds} when shuffling (seed 0 otherwise)")})
         );
         return;
     }
@@ -248,6 +280,7 @@ fn main() {
     run.bounds.insert("shuffle".into(), json!([false, true]));
     run.bounds.insert("prefetch_factor".into(), json!(PREFETCH));
     run.bounds.insert("batch_limit".into(), json!(LIMITS));
+    run.bounds.insert("item_iterator_size_hint".into(), json!("exact in the full grid; (0, None) and (1, Some(n + 2)) in a reduced grid: 4 modes x prefetch 1 x limits {1, 2, usize::MAX} x both limit types x seed 0"));
     run.bounds.insert("batch_limit_type".into(), json!(["batch_size", "padded_item_size"]));
     run.bounds.insert("seeds".into(), json!(format!("0..{nseeds} when shuffle is on, seed 0 otherwise")));
     run.extra.insert(
@@ -272,7 +305,7 @@ fn main() {
                         seen.clear();
                         let mut complete = true;
                         for seed in 0..(if shuffle { nseeds } else { 1 }) {
-                            let c = Cfg { sort, shuffle, prefetch, limit, padded, seed };
+                            let c = Cfg { sort, shuffle, prefetch, limit, padded, seed, hint: 0 };
                             match check(&mut run, &mut st, sizes, &c) {
                                 Some(out) => {
                                     if !seen.contains(&out) {
@@ -285,6 +318,23 @@ fn main() {
                         if shuffle && complete {
                             st.distinct[sizes.len()][seen.len()] += 1;
                         }
+                    }
+                }
+            }
+        }
+    }
+    // item iterators whose size hint is not exact: the number of items is what the iterator yields
+    // (reduced grid: prefetch 1, limits 1, 2 and usize::MAX, seed 0)
+    for (idx, sizes) in all.iter().enumerate() {
+        if !run.unit((all.len() + idx) as u64) {
+            continue;
+        }
+        for hint in [1u8, 2] {
+            for mode in 0..4u32 {
+                for limit in [1usize, 2, usize::MAX] {
+                    for padded in [false, true] {
+                        let c = Cfg { sort: mode & 1 != 0, shuffle: mode & 2 != 0, prefetch: 1, limit, padded, seed: 0, hint };
+                        check(&mut run, &mut st, sizes, &c);
                     }
                 }
             }
